@@ -768,8 +768,12 @@ fn make_shim_copy() -> Result<String, String> {
     }
     let mut wanted: std::collections::HashSet<std::path::PathBuf> = Default::default();
     for f in ["Cargo.toml", "Cargo.lock"] {
-        let c = std::fs::read(format!("{repo}/{f}")).map_err(|e| format!("{f}: {e}"))?;
-        put(std::path::Path::new(&format!("{dst}/{f}")), &c)?;
+        match std::fs::read(format!("{repo}/{f}")) {
+            Ok(c) => put(std::path::Path::new(&format!("{dst}/{f}")), &c)?,
+            // the lock file is not needed (harness-sync has its own); a tree without one is fine
+            Err(_) if f == "Cargo.lock" => {}
+            Err(e) => return Err(format!("{f}: {e}")),
+        }
     }
     let direct = regex::Regex::new(r"(?P<pre>^|[^:\w])std::sync\b").unwrap();
     let grouped = regex::Regex::new(r"^(?P<ind>\s*)(?P<vis>pub(?:\([a-z]+\))? )?use std::\{(?P<body>[^{}]*)\};\s*$").unwrap();
